@@ -8,6 +8,7 @@
              approvals are in the initial state); 2 and 3 never learned 4 and 5; member 1 holds 2 and 3
              as unhealthy, member 3 holds 1 as unhealthy; pledge 101 contacts 1, pledge 102 contacts 3 *)
 EXTENDS Pledge
+CONSTANT MaxLearn   \* bound on the number of (member, key) pairs gossip teaches (state constraint)
 AllVia == [p \in Pledge |-> Proc]
 Empty == [m \in InitMember |-> {}]
 Same3View == [m \in InitMember |-> InitMember]
@@ -16,6 +17,9 @@ Stale3bView == [m \in InitMember |-> IF m = 2 THEN {1, 2} ELSE InitMember]
 Stale5View == [m \in InitMember |-> IF m \in {2, 3} THEN 1..3 ELSE 1..5]
 Stale5Unhealthy == [m \in InitMember |-> CASE m = 1 -> {2, 3} [] m = 3 -> {1} [] OTHER -> {}]
 Stale5Approvals == [m \in InitMember |-> CASE m = 1 -> {4, 5} [] m = 2 -> {4, 5} [] m = 4 -> {5} [] OTHER -> {}]
+BaseView(m) == IF m \in InitMember THEN InitView[m] ELSE {nodeKey[m]}
+LearnedPairs == {mk \in Proc \X (1..MaxKey) : nodeKey[mk[1]] # 0 /\ mk[2] \in view[mk[1]] \ BaseView(mk[1])}
+LearnBound == Cardinality(LearnedPairs) <= MaxLearn
 \* Reduction: the conclusion of a round (Retry / Admit) reads and writes only resp[p] / admitted[p]
 \* (nothing another action reads except Start's and Join's guards, which it can only enable), so it is
 \* taken as soon as it is enabled; every other interleaving is kept.
